@@ -24,6 +24,9 @@ type Exec struct {
 	S          *vrt.Sched
 	Outcome    string
 	Violations []Violation
+	// Tags are counted over all executions (Stats.Tags): used for existential oracles ("some execution of
+	// scenario X reached the target").
+	Tags []string
 }
 
 type RunFunc func(devs []vrt.Dev) *Exec
@@ -54,6 +57,7 @@ type Stats struct {
 	CompletedBound int  // largest K such that every execution with <= K deviations was run; -1 none
 	Saturated      bool // the whole tree was enumerated
 	Capped         string
+	Tags           map[string]int64
 	Outcomes       map[string]int64
 	OutcomeSample  map[string][]vrt.Dev
 	Found          []Found // first occurrence per fingerprint
@@ -72,7 +76,7 @@ func Explore(cfg Config, run RunFunc) *Stats {
 	if cfg.Workers <= 0 {
 		cfg.Workers = 1
 	}
-	st := &Stats{Outcomes: map[string]int64{}, OutcomeSample: map[string][]vrt.Dev{}, FoundCount: map[string]int64{}, CompletedBound: -1}
+	st := &Stats{Tags: map[string]int64{}, Outcomes: map[string]int64{}, OutcomeSample: map[string][]vrt.Dev{}, FoundCount: map[string]int64{}, CompletedBound: -1}
 	start := time.Now()
 	var mu sync.Mutex
 	var execs atomic.Int64
@@ -144,6 +148,9 @@ func Explore(cfg Config, run RunFunc) *Stats {
 			st.ExecsByCost = append(st.ExecsByCost, 0)
 		}
 		st.ExecsByCost[c]++
+		for _, tg := range x.Tags {
+			st.Tags[tg]++
+		}
 		st.Outcomes[x.Outcome]++
 		if _, ok := st.OutcomeSample[x.Outcome]; !ok {
 			st.OutcomeSample[x.Outcome] = it.devs
